@@ -833,7 +833,7 @@ def rule_rank_fits_arrays(ctx):
         t = b.get("term")
         if t and t.get("cond") is not None:
             for c in walk(t["cond"], True):
-                if c[0] == "bin" and c[1] in (">", ">=") and kind(strip(c[2])) == "var" and strip(c[2])[1] == "rank" and is_int(c[3]) and int_name(c[3]):
+                if c[0] == "bin" and c[1] in (">", ">=") and kind(strip(c[2])) == "var" and strip(c[2])[1] == "rank" and is_int(c[3]) and (int_name(c[3]) or int_val(c[3]) >= 8):
                     k = int_val(c[3]) - (1 if c[1] == ">=" else 0)
                     if gate is None or k < gate[0]:
                         gate = (k, int_name(c[3]) or str(int_val(c[3])), t.get("l", g.line))
